@@ -325,6 +325,33 @@ func stage2(u *Unit, o *Obligation, cfg SolverCfg) {
 	if afile != "" && !cfg.KeepFiles {
 		defer os.Remove(afile)
 	}
+	// ground copy: every quantified ASSERTION is dropped (definitions stay). A weakening, so only `unsat` counts; it
+	// rescues goals that need only ground facts but drown in irrelevant quantified context.
+	gfile := ""
+	if src, err := os.ReadFile(file); err == nil {
+		var gb strings.Builder
+		dropped := 0
+		lines := strings.Split(string(src), "\n")
+		for i, l := range lines {
+			last := i >= len(lines)-4 // the negated goal and check-sat stay
+			if !last && strings.HasPrefix(l, "(assert ") && (strings.Contains(l, "(forall ") || strings.Contains(l, "(exists ")) {
+				dropped++
+				continue
+			}
+			gb.WriteString(l)
+			gb.WriteString("\n")
+		}
+		if dropped > 0 {
+			gfile = strings.TrimSuffix(file, ".smt2") + ".ground.smt2"
+			os.WriteFile(gfile, []byte(gb.String()), 0o644)
+			gs := solvers[0]
+			gs.name += "+ground"
+			attempts = append(attempts, attempt{gs, gfile, true})
+		}
+	}
+	if gfile != "" && !cfg.KeepFiles {
+		defer os.Remove(gfile)
+	}
 	rc := make(chan res, len(attempts))
 	for _, a := range attempts {
 		go func(a attempt) {
